@@ -245,3 +245,131 @@ class OmenModel:
                         if cur + l <= maxL and l <= 10:
                             stack.append((s + ch, cur + l))
         return res
+
+# ------------------------------------------------------------------ C05: reference segment validator
+QWERTY = [("1234567890-=", "!@#$%^&*()_+"), ("qwertyuiop[]\\", "QWERTYUIOP{}|"), ("asdfghjkl;'", 'ASDFGHJKL:"'), ("zxcvbnm,./", "ZXCVBNM<>?")]
+JCUKEN = [("1234567890-=", '!"№;%:?*()_+'), ("йцукенгшщзхъ\\", "ЙЦУКЕНГШЩЗХЪ/"), ("фывапролджэ", "ФЫВАПРОЛДЖЭ"), ("ячсмитьбю", "ЯЧСМИТЬБЮ,")]
+CONTEXT_STRINGS = [";p", ":p", "*0*", "#1", "No.1", "no.1", "No.", "i<3", "I<3", "<3", "Mr.", "mr.", "MR.", "MS.", "Ms.", "ms.", "Mz.", "mz.", "MZ.",
+                   "St.", "st.", "Dr.", "dr."]
+
+def _kpos(layout, ch):
+    """First matching (row, column) like the tool: unshifted row r, then shifted row r, for r = 1..4."""
+    for r, (plain, shifted) in enumerate(layout):
+        if ch in plain:
+            return (r, plain.index(ch))
+        if ch in shifted:
+            return (r, shifted.index(ch))
+    return None
+
+def _adjacent(a, b):
+    if a is None or b is None or a == b:
+        return False
+    (r1, c1), (r2, c2) = a, b
+    if r1 == r2:
+        return abs(c1 - c2) == 1
+    if r2 == r1 + 1:
+        return c2 in (c1, c1 - 1)
+    if r2 == r1 - 1:
+        return c2 in (c1, c1 + 1)
+    return False
+
+def is_keyboard_walk(seg):
+    for layout in (QWERTY, JCUKEN):
+        pos = [_kpos(layout, ch) for ch in seg]
+        if all(_adjacent(a, b) for a, b in zip(pos, pos[1:])):
+            return True
+    return False
+
+def char_classes(seg):
+    return {('a' if c.isalpha() else 'd' if c.isdigit() else 's') for c in seg}
+
+def mw_tally(history, min_len=4, max_len=21):
+    """My own tally of the multi-word detector's training history: alpha runs (>= min_len) of the lower-cased passwords of admissible length."""
+    t = Counter()
+    for pw in history:
+        if len(pw) < min_len or len(pw) > max_len:
+            continue
+        run = ''
+        for ch in pw.lower() + '\0':
+            if ch.isalpha():
+                run += ch
+            else:
+                if len(run) >= min_len:
+                    t[run] += 1
+                run = ''
+    return t
+
+LABEL = re.compile(r'^(?:[ADOK][0-9]+|Y1|X1|E|W)$')
+
+def validate_segmentation(password, sections, tally, threshold=5, min_len=4, max_len=21):
+    """Returns a list of (kind, message).  Empty list = the segmentation is a lossless, soundly typed tiling."""
+    bad = []
+    if not sections:
+        return [('empty', 'no segments at all')]
+    pos = 0
+    for seg, lab in sections:
+        if lab is None or lab == '' or not isinstance(lab, str) or not LABEL.match(lab):
+            bad.append(('label', f'segment {seg!r} has label {lab!r}')); return bad
+        if seg is None or seg == '':
+            bad.append(('empty', f'empty segment with label {lab}')); return bad
+        piece = password[pos:pos + len(seg)]
+        if (piece.lower() if lab == 'W' else piece) != seg:
+            bad.append(('tiling', f'segment {seg!r} ({lab}) does not continue the password at offset {pos}: found {piece!r}')); return bad
+        pos += len(seg)
+    if pos != len(password):
+        bad.append(('tiling', f'segments cover {pos} of {len(password)} characters')); return bad
+    for i, (seg, lab) in enumerate(sections):
+        k = lab[0]
+        if k in 'ADOK' and int(lab[1:]) != len(seg):
+            bad.append(('label-length', f'{lab} on segment {seg!r} of length {len(seg)}'))
+        if k == 'D':
+            if not all(c.isdigit() for c in seg):
+                bad.append(('digit', f'{lab} segment {seg!r} has a non-digit'))
+            if i + 1 < len(sections) and sections[i + 1][1][0] in 'DY':
+                bad.append(('digit-maximal', f'digit segment {seg!r} is followed by {sections[i + 1][1]} {sections[i + 1][0]!r}: not a maximal digit run'))
+            if i > 0 and sections[i - 1][1][0] == 'Y':
+                bad.append(('digit-maximal', f'digit segment {seg!r} follows the year {sections[i - 1][0]!r}: the year was carved out of a longer digit run'))
+        elif k == 'A':
+            if not all(c.isalpha() for c in seg):
+                bad.append(('alpha-not-letters', f'{lab} segment {seg!r} contains a non-letter'))
+        elif k == 'Y':
+            if not (len(seg) == 4 and all(c.isdigit() for c in seg) and seg[:2] in ('19', '20')):
+                bad.append(('year', f'Y1 segment {seg!r}'))
+            if i + 1 < len(sections) and sections[i + 1][1][0] == 'Y':
+                bad.append(('year', f'years {seg!r} and {sections[i + 1][0]!r} are adjacent'))
+        elif k == 'K':
+            if len(seg) < 4 or not is_keyboard_walk(seg) or len(char_classes(seg)) < 2:
+                bad.append(('keyboard', f'{lab} segment {seg!r} is not a walk of >=4 adjacent keys mixing character classes'))
+        elif k == 'X':
+            if seg not in CONTEXT_STRINGS:
+                bad.append(('context', f'X1 segment {seg!r} is not in the fixed list'))
+        elif k == 'O':
+            if any(c.isalpha() or c.isdigit() for c in seg):
+                bad.append(('other-has-letter-or-digit', f'{lab} segment {seg!r}'))
+        elif k == 'E':
+            if '@' not in seg:
+                bad.append(('email', f'E segment {seg!r} without @'))
+        elif k == 'W':
+            if '.' not in seg:
+                bad.append(('website', f'W segment {seg!r} without a dot'))
+    # multi-word splits: maximal groups of consecutive A segments
+    i = 0
+    while i < len(sections):
+        if sections[i][1][0] == 'A':
+            j = i
+            while j + 1 < len(sections) and sections[j + 1][1][0] == 'A':
+                j += 1
+            if j > i:
+                parts = [s.lower() for s, _ in sections[i:j + 1]]
+                whole = ''.join(parts)
+                if not (2 * min_len <= len(whole) < max_len):
+                    bad.append(('multiword', f'split {parts} of a run of length {len(whole)} (allowed 8..20)'))
+                if tally.get(whole, 0) >= threshold:
+                    bad.append(('multiword', f'{whole!r} was seen {tally[whole]} times (>= threshold) but was split into {parts}'))
+                for p in parts:
+                    if len(p) < min_len or tally.get(p, 0) < threshold:
+                        bad.append(('multiword', f'part {p!r} of split {parts} was seen only {tally.get(p, 0)} times'))
+            i = j + 1
+        else:
+            i += 1
+    return bad
